@@ -335,7 +335,9 @@ impl<'a, C: SimCfg> Runner<'a, C> {
                         self.suspensions_seen = seen;
                         self.fault_fired = true;
                         self.tracked = None;
-                        self.quiesce().await;
+                        if !self.sc.cfg.no_quiesce {
+                            self.quiesce().await;
+                        }
                         self.drain()?;
                         self.model.request_end();
                     }
